@@ -24,7 +24,7 @@ impl MinCase {
             self.m,
             self.threads,
             self.sched,
-            if self.recs.is_empty() { "-".to_string() } else { self.recs.iter().map(|r| hex(r)).collect::<Vec<_>>().join(",") }
+            if self.recs.is_empty() { "-".to_string() } else { self.recs.iter().map(|r| hexr(r)).collect::<Vec<_>>().join(",") }
         )
     }
     pub fn parse(line: &str) -> Option<MinCase> {
